@@ -230,10 +230,19 @@ def nodes_view(g, data=None):
 
     def plan(engine, st):
         x = S.fresh("nd", V)
+        nty = TAny
+        c = engine.current_contract
+        if c is not None and getattr(c, "graph_node_type", None):
+            # static dispatch hint for attribute access on node objects; NOT an assumption: it must follow from the path
+            # condition (normally a `requires` clause about the graph's nodes) - one obligation per iteration site
+            from .values import parse_type
+
+            nty = parse_type(c.graph_node_type)
+            engine.oblige(st.assume(g.t[0][x]), And(V.is_obj(x), engine.instance_of(x, c.graph_node_type)), f"{engine.verifying}:graph_node_type.{c.graph_node_type}:{len(engine.obligs)}", kind="typing", func=engine.verifying, clause="graph_node_type", props=c.props)
         if data is None:
-            yield st, Plan("setlike", vars=[x], mem=g.t[0][x], decode=lambda s: (s, sv_v(x, TAny)), key=x)
+            yield st, Plan("setlike", vars=[x], mem=g.t[0][x], decode=lambda s: (s, sv_v(x, nty)), key=x)
         else:
-            yield st, Plan("setlike", vars=[x], mem=g.t[0][x], decode=lambda s: (s, sv_tuple([sv_v(x, TAny), nattr_dict(g, x)])), key=x)
+            yield st, Plan("setlike", vars=[x], mem=g.t[0][x], decode=lambda s: (s, sv_tuple([sv_v(x, nty), nattr_dict(g, x)])), key=x)
 
     def contains(engine, st, x):
         st, b = engine.boxed(st, x)
